@@ -25,7 +25,7 @@ RULE = ('vsched harness (real pthreads, one baton; every pthread_mutex_*/cond_* 
         'futex/list.c driven as futex.c drives them (insert absent keys only, slot pointers held across other operations, waiters '
         'prepended and removed through their slot) against std::map / std::vector over generated histories with bucket-colliding '
         'keys and with hundreds of distinct addresses parked at once: lookups, list order, slot stability, removal results, and '
-        'mapFree releasing every remaining value exactly once.')
+        'mapFree releasing every remaining value exactly once. Virtual clock: clock_gettime and gettimeofday of the code under test are interposed; time stands still while threads run, jumps to the deadline when a timeout fires and moves part of the way when a timed waiter is woken spuriously; a wait that answers timed-out before its timeout has elapsed on that clock is a violation.')
 ASSUME = ['vsched models pthread semantics (spurious wake-ups allowed, signal wakes any one waiter, timedwait may time out at any '
           'point); liveness is a scheduler choice, not real time', 'the search samples schedules; it does not enumerate them']
 
